@@ -41,7 +41,7 @@ class TlcResult:
         m = re.search(r"The depth of the complete state graph search is (\d+)", out)
         self.depth = int(m.group(1)) if m else 0
         self.no_error = "No error has been found" in out
-        self.violated = re.findall(r"Error: (?:Invariant|Action property|Temporal property|Property) (\S+) is violated", out)
+        self.violated = re.findall(r"Error: (?:Invariant|Action property|Temporal property|Property) (\S+) (?:is|was) violated", out)
         if "Temporal properties were violated" in out:
             self.violated.append("<temporal>")
         if re.search(r"Error: Deadlock reached", out):
